@@ -2,6 +2,7 @@ package govc
 
 import (
 	"go/ast"
+	"go/constant"
 	"go/token"
 	"go/types"
 	"sync"
@@ -83,6 +84,12 @@ func (p *Program) bodyPure(fi *FuncInfo) bool {
 					pure = false
 				}
 			}
+		case *ast.ForStmt:
+			// a call to an auto-pure callee is assumed to return: its loops must be counted loops
+			// that terminate on syntactic grounds (range loops always do)
+			if !countedLoop(info, x) {
+				pure = false
+			}
 		case *ast.GoStmt, *ast.DeferStmt, *ast.SendStmt, *ast.SelectStmt, *ast.FuncLit:
 			pure = false
 		case *ast.UnaryExpr:
@@ -140,4 +147,84 @@ func (p *Program) bodyPure(fi *FuncInfo) bool {
 		return true
 	})
 	return pure
+}
+
+
+// countedLoop recognises `for i := ...; i <op> e; i++ / i-- / i += c / i -= c` (c a positive
+// constant, direction matching the comparison) whose body never assigns i.
+func countedLoop(info *types.Info, f *ast.ForStmt) bool {
+	cond, ok := f.Cond.(*ast.BinaryExpr)
+	if !ok || f.Post == nil {
+		return false
+	}
+	var iv *ast.Ident
+	up := false
+	switch post := f.Post.(type) {
+	case *ast.IncDecStmt:
+		iv, _ = ast.Unparen(post.X).(*ast.Ident)
+		up = post.Tok == token.INC
+	case *ast.AssignStmt:
+		if len(post.Lhs) != 1 || len(post.Rhs) != 1 || (post.Tok != token.ADD_ASSIGN && post.Tok != token.SUB_ASSIGN) {
+			return false
+		}
+		iv, _ = ast.Unparen(post.Lhs[0]).(*ast.Ident)
+		tv, ok := info.Types[post.Rhs[0]]
+		if !ok || tv.Value == nil {
+			return false
+		}
+		if v, ok := constInt64(tv); !ok || v <= 0 {
+			return false
+		}
+		up = post.Tok == token.ADD_ASSIGN
+	default:
+		return false
+	}
+	if iv == nil {
+		return false
+	}
+	obj := info.Uses[iv]
+	isIV := func(e ast.Expr) bool {
+		id, ok := ast.Unparen(e).(*ast.Ident)
+		return ok && info.Uses[id] == obj && obj != nil
+	}
+	// the comparison bounds the induction variable in the direction it moves
+	switch {
+	case isIV(cond.X) && up && (cond.Op == token.LSS || cond.Op == token.LEQ):
+	case isIV(cond.X) && !up && (cond.Op == token.GTR || cond.Op == token.GEQ):
+	case isIV(cond.Y) && up && (cond.Op == token.GTR || cond.Op == token.GEQ):
+	case isIV(cond.Y) && !up && (cond.Op == token.LSS || cond.Op == token.LEQ):
+	default:
+		return false
+	}
+	assigned := false
+	ast.Inspect(f.Body, func(n ast.Node) bool {
+		switch x := n.(type) {
+		case *ast.AssignStmt:
+			for _, l := range x.Lhs {
+				if isIV(l) {
+					assigned = true
+				}
+			}
+		case *ast.IncDecStmt:
+			if isIV(x.X) {
+				assigned = true
+			}
+		case *ast.UnaryExpr:
+			if x.Op == token.AND && isIV(x.X) {
+				assigned = true
+			}
+		}
+		return !assigned
+	})
+	return !assigned
+}
+
+func constInt64(tv types.TypeAndValue) (int64, bool) {
+	if tv.Value == nil {
+		return 0, false
+	}
+	if v, ok := constant.Int64Val(constant.ToInt(tv.Value)); ok {
+		return v, true
+	}
+	return 0, false
 }
